@@ -3,6 +3,7 @@ package main
 import (
 	"go/ast"
 	"go/token"
+	"go/types"
 	"sort"
 	"strings"
 )
@@ -237,7 +238,7 @@ func rulesC16(c *Ctx) {
 			switch x := n.(type) {
 			case *ast.AssignStmt:
 				if len(x.Lhs) == 1 {
-					if ix, ok := unparen(x.Lhs[0]).(*ast.IndexExpr); ok && p.Src(ix.X) == "visited" {
+					if ix, ok := unparen(x.Lhs[0]).(*ast.IndexExpr); ok && isVisitedMap(p, ix.X) {
 						_, isName := p.fieldSel(ix.Index, "objects.Queue.Name")
 						keyOK = isName
 					}
@@ -249,7 +250,7 @@ func rulesC16(c *Ctx) {
 							st := p.StateAt(fn, mc)
 							rmOK = p.Holds(st, func(a Atom) bool {
 								ix, ok := unparen(a.E).(*ast.IndexExpr)
-								return ok && !a.Val && p.Src(ix.X) == "visited" && p.Src(ix.Index) == p.Src(x.Key)
+								return ok && !a.Val && isVisitedMap(p, ix.X) && p.Src(ix.Index) == p.Src(x.Key)
 							})
 						}
 					}
@@ -384,4 +385,17 @@ func (p *Prog) sendsBefore(fn *Func, exit ast.Node) int {
 		}
 		cur = par
 	}
+}
+
+// isVisitedMap: a local map[string]bool (the set of configured child names seen by updateQueues).
+func isVisitedMap(p *Prog, e ast.Expr) bool {
+	if _, isLocal := unparen(e).(*ast.Ident); !isLocal {
+		return false
+	}
+	t := p.TypeOf(e)
+	if t == nil {
+		return false
+	}
+	mt, ok := t.Underlying().(*types.Map)
+	return ok && mt.Key().String() == "string" && mt.Elem().String() == "bool"
 }
